@@ -60,9 +60,11 @@ def cases(rng, tier):
         absent = [a for a in htgen.absent_keys(rng, keys, dt, mod)]
         # the ends of the key dtype (and 0) as NON-keys: values an implementation may use as a marker
         absent += [a for a in (int(np.iinfo(dt).min), int(np.iinfo(dt).max), 0, -1) if a not in keys and np.iinfo(dt).min <= a <= np.iinfo(dt).max and a not in absent]
-        init = rng.choice(["default", "default", 0, 5, 0.5, "array"])
+        init = rng.choice(["default", "default", 0, 5, 0.5, "array", "array", "farray"])
         if init == "array":
             init = [rng.randint(0, 9) for _ in keys]
+        elif init == "farray":       # per-key pseudo-counts that are not integers
+            init = [rng.choice([0.5, 1.5, 2.25, 0.0, 7.75]) for _ in keys]
         batches = [_batch(rng, keys, absent) for _ in range(rng.randint(1, 5))]
         out.append({"keys": keys, "kdtype": dt, "mod": mod, "init": init, "batches": batches, "pseed": rng.randint(0, 999)})
     # small moduli with a PRESCRIBED pattern of bucket sizes (1..3 keys per bucket, some buckets empty) and short batches that walk
@@ -117,6 +119,10 @@ def cases(rng, tier):
     return out
 
 
+def _isfloat(p):
+    return isinstance(p["init"], float) or (isinstance(p["init"], list) and any(isinstance(v, float) for v in p["init"]))
+
+
 def key(p):
     return engine.stable_hash([p["keys"], p["mod"], p["init"], p["batches"]])
 
@@ -166,7 +172,7 @@ def _mk(p, shared=None):
 
 
 def _totals(c, p, kd):
-    return [float(x) if isinstance(p["init"], float) else int(x) for x in np.atleast_1d(c[np.array(p["keys"], dtype=kd)])]
+    return [float(x) if _isfloat(p) else int(x) for x in np.atleast_1d(c[np.array(p["keys"], dtype=kd)])]
 
 
 def run_impl(p):
@@ -198,7 +204,7 @@ def run_impl(p):
         if [float(x) for x in _totals(twin, p, kd)] != [float(x) for x in ini]:
             raise AssertionError("a counter built from the same arrays changed along with this one")
         return {"k": "obs", "trace": canon(trace), "resplit": canon(_totals(c2, p, kd)), "onecall": canon(_totals(c3, p, kd)),
-                "items": canon(htgen.sort_pairs((k, float(v) if isinstance(p["init"], float) else int(v)) for k, v in c.items()))}
+                "items": canon(htgen.sort_pairs((k, float(v) if _isfloat(p) else int(v)) for k, v in c.items()))}
     return guarded(g)
 
 
@@ -216,7 +222,7 @@ def oracle(p):
 
 
 def lean_request(p):
-    if isinstance(p["init"], float) or any(isinstance(b, dict) for b in p["batches"]):
+    if _isfloat(p) or any(isinstance(b, dict) for b in p["batches"]):
         return None          # (big batches: implementation vs reference tally only)
     vals = 0 if p["init"] == "default" else p["init"]
     ops = []
